@@ -1,4 +1,400 @@
-import DFV.Model.C07
+import DFV.Lemmas.C07SelFld
+/-!
+# C07 — sub-selection, padding and resampling keep every value at its physical position
+
+Property theorems about the code-shaped model `DFV/Model/C07.lean` of `Mesh.sel`,
+`Field.sel`, `Mesh.__getitem__`, `Field.__getitem__`, `Mesh.region2slices`, `Mesh.pad`,
+`Field.pad` and `Field.resample`.  Values are only moved, never computed: every statement
+about values is an equation between `get`s of the result and of the source, so it holds
+verbatim for any value type.  Dimension count, cell counts, selection coordinates, boxes,
+pad widths and target resolutions are universally quantified.  Arithmetic is exact (`Rat`).
+-/
 namespace DFV.C07
-theorem placeholder : True := trivial
+open DFV DFV.Mesh
+
+/-! ## Argument normalisation (`_sel_convert_input`) -/
+
+/-- A coordinate inside the region is accepted and normalised to the cell that contains it:
+the returned index `k` is the index of that cell, the returned coordinate its centre, and
+`lo + k·cell ≤ x < lo + (k+1)·cell` (the last cell is closed at the region's upper face). -/
+theorem selConvert_point (m : Mesh) (hm : m.Inv) (dim : String) (a : Nat)
+    (hd : m.region.dim2index dim = .ok a) (x : Rat)
+    (h1 : m.region.lo a ≤ x) (h2 : x ≤ m.region.hi a) :
+    selConvert m dim (.point x)
+      = .ok (a, .plane (m.centreAx a ((m.indexAx a x : Nat) : Int)) (m.indexAx a x)) ∧
+    m.indexAx a x < m.nAt a ∧
+    m.region.lo a + (m.indexAx a x : Rat) * m.cellAt a ≤ x ∧
+    (x < m.region.lo a + ((m.indexAx a x : Rat) + 1) * m.cellAt a ∨
+      (m.indexAx a x = m.nAt a - 1 ∧ x = m.region.hi a)) := by
+  have ha := dim2index_ndim hm hd
+  refine ⟨?_, indexAx_lt m a x (inv_n_pos hm ha), index_contains m a x (inv_n_pos hm ha) (inv_lo_lt_hi hm ha) h1 h2⟩
+  unfold selConvert
+  rw [hd]
+  simp only
+  rw [selOne_eq m hm a ha x h1 h2]
+
+/-- Without a coordinate the selection goes through the cell containing the region's centre. -/
+theorem selConvert_centre (m : Mesh) (hm : m.Inv) (dim : String) (a : Nat)
+    (hd : m.region.dim2index dim = .ok a) :
+    selConvert m dim .centre
+      = selConvert m dim (.point ((m.region.lo a + m.region.hi a) / 2)) := by
+  have ha := dim2index_ndim hm hd
+  have hlt := inv_lo_lt_hi hm ha
+  rw [(selConvert_point m hm dim a hd _ (by linarith) (by linarith)).1]
+  unfold selConvert
+  rw [hd]
+  simp only
+  rw [cellOf_eq m hm a ha m.region.center (center_length m) (by
+      intro b hb
+      rw [center_getD m b hb]
+      have := inv_lo_lt_hi hm hb
+      constructor <;> linarith)]
+  simp only
+  rw [center_getD m a ha]
+
+/-- A range inside the region is normalised to the cells containing its lower and its upper
+bound (inclusive index range `k₁ … k₂`, `k₁ ≤ k₂`). -/
+theorem selConvert_range (m : Mesh) (hm : m.Inv) (dim : String) (a : Nat)
+    (hd : m.region.dim2index dim = .ok a) (x y : Rat)
+    (h1 : m.region.lo a ≤ min x y) (h2 : max x y ≤ m.region.hi a) :
+    selConvert m dim (.range x y)
+      = .ok (a, .range (m.centreAx a ((m.indexAx a (min x y) : Nat) : Int))
+                 (m.centreAx a ((m.indexAx a (max x y) : Nat) : Int))
+                 (m.indexAx a (min x y)) (m.indexAx a (max x y))) ∧
+    m.indexAx a (min x y) ≤ m.indexAx a (max x y) ∧ m.indexAx a (max x y) < m.nAt a := by
+  have ha := dim2index_ndim hm hd
+  have hmm : min x y ≤ max x y := le_trans (min_le_left x y) (le_max_left x y)
+  refine ⟨?_, indexAx_mono m a _ _ (inv_cell_pos hm ha) hmm, indexAx_lt m a _ (inv_n_pos hm ha)⟩
+  unfold selConvert
+  rw [hd]
+  simp only
+  rw [selOne_eq m hm a ha _ h1 (le_trans hmm h2), selOne_eq m hm a ha _ (le_trans h1 hmm) h2]
+
+/-- The two bounds of a range may be given in either order. -/
+theorem sel_range_comm (f : Fld) (dim : String) (x y : Rat) :
+    selConvert f.mesh dim (.range x y) = selConvert f.mesh dim (.range y x) ∧
+    selMesh f.mesh dim (.range x y) = selMesh f.mesh dim (.range y x) ∧
+    selFld f dim (.range x y) = selFld f dim (.range y x) := by
+  have h : selConvert f.mesh dim (.range x y) = selConvert f.mesh dim (.range y x) := by
+    unfold selConvert
+    cases f.mesh.region.dim2index dim with
+    | error e => rfl
+    | ok a => simp only; rw [min_comm x y, max_comm x y]
+  have h2 : selMesh f.mesh dim (.range x y) = selMesh f.mesh dim (.range y x) := by
+    unfold selMesh; rw [h]
+  exact ⟨h, h2, by unfold selFld; rw [h, h2]⟩
+
+/-- Requests outside the region are rejected: a coordinate below `pmin` or above `pmax`, a
+range with a bound outside, an unknown axis name, a malformed value — by `_sel_convert_input`,
+`Mesh.sel` and `Field.sel` alike. -/
+theorem sel_outside_rejected (f : Fld) (dim : String) (arg : SelArg)
+    (hout : (∀ a, f.mesh.region.dim2index dim ≠ .ok a) ∨ arg = .bad ∨
+      (∃ a x, f.mesh.region.dim2index dim = .ok a ∧ arg = .point x ∧
+        (x < f.mesh.region.lo a ∨ f.mesh.region.hi a < x)) ∨
+      (∃ a x y, f.mesh.region.dim2index dim = .ok a ∧ arg = .range x y ∧
+        (min x y < f.mesh.region.lo a ∨ f.mesh.region.hi a < max x y))) :
+    (∃ e, selConvert f.mesh dim arg = .error e) ∧ (∃ e, selMesh f.mesh dim arg = .error e) ∧
+    (∃ e, selFld f dim arg = .error e) := by
+  have key : ∃ e, selConvert f.mesh dim arg = .error e := by
+    unfold selConvert
+    rcases hout with h | h | ⟨a, x, hd, harg, hx⟩ | ⟨a, x, y, hd, harg, hxy⟩
+    · cases hdi : f.mesh.region.dim2index dim with
+      | error e => exact ⟨e, rfl⟩
+      | ok a => exact absurd hdi (h a)
+    · subst h
+      cases f.mesh.region.dim2index dim with
+      | error e => exact ⟨e, rfl⟩
+      | ok a => exact ⟨_, rfl⟩
+    · subst harg
+      rw [hd]
+      simp only
+      rw [selOne_err _ a x hx]
+      exact ⟨_, rfl⟩
+    · subst harg
+      rw [hd]
+      simp only
+      rcases hxy with h | h
+      · rw [selOne_err _ a _ (Or.inl h)]
+        exact ⟨_, rfl⟩
+      · cases h1 : selOne f.mesh a (min x y) with
+        | error e => exact ⟨e, rfl⟩
+        | ok ck =>
+          simp only
+          rw [selOne_err _ a _ (Or.inr h)]
+          exact ⟨_, rfl⟩
+  obtain ⟨e, he⟩ := key
+  refine ⟨⟨e, he⟩, ⟨e, by unfold selMesh; rw [he]⟩, ⟨e, by unfold selFld; rw [he]⟩⟩
+
+/-! ## Plane selection -/
+
+/-- `Mesh.sel` with a coordinate (or none): the result has exactly axis `a` removed — its
+name and unit are gone, every other axis keeps corners, cell count and cell size — and it is
+again a well-formed mesh.  (Cell-aligned: kept axes are identical to the source's.) -/
+theorem sel_plane_shape (m : Mesh) (hm : m.Inv) (dim : String) (arg : SelArg) (a : Nat) (c : Rat) (k : Nat)
+    (hconv : selConvert m dim arg = .ok (a, .plane c k)) (g : Mesh) (h : selMesh m dim arg = .ok g) :
+    g.ndim = m.ndim - 1 ∧ 2 ≤ m.ndim ∧
+    g.region.dims = removeAt m.region.dims a ∧ g.region.units = removeAt m.region.units a ∧
+    g.region.tol = m.region.tol ∧
+    (∀ b, b < g.ndim →
+      g.region.lo b = m.region.lo (skip a b) ∧ g.region.hi b = m.region.hi (skip a b) ∧
+      g.nAt b = m.nAt (skip a b) ∧ g.cellAt b = m.cellAt (skip a b)) ∧
+    g.Inv := by
+  have ha : a < m.ndim := by
+    unfold selConvert at hconv
+    split at hconv
+    · cases hconv
+    · rename_i a' hd
+      have := dim2index_ndim hm hd
+      cases arg <;> simp only at hconv
+      · split at hconv
+        · cases hconv
+        · injection hconv with hc; injection hc with hc _; omega
+      · split at hconv
+        · cases hconv
+        · injection hconv with hc; injection hc with hc _; omega
+      · split at hconv
+        · cases hconv
+        · split at hconv
+          · cases hconv
+          · injection hconv with hc; injection hc with _ hc; cases hc
+      · cases hconv
+  have hp := selMesh_plane_inv m hm dim arg a c k hconv g h
+  obtain ⟨e1, e2, e3, e4, e5, e6, e7, e8, e9⟩ := selPlaneMesh_inv m hm a ha c g hp
+  have hax : ∀ b, b < g.ndim →
+      g.region.lo b = m.region.lo (skip a b) ∧ g.region.hi b = m.region.hi (skip a b) ∧
+      g.nAt b = m.nAt (skip a b) ∧ g.cellAt b = m.cellAt (skip a b) := by
+    intro b hb
+    obtain ⟨h1, h2, h3⟩ := e9 b (by omega)
+    refine ⟨h1, h2, h3, ?_⟩
+    unfold cellAt Region.edge; rw [h1, h2, h3]
+  refine ⟨e1, by omega, e3, e4, e5, hax, ?_⟩
+  refine ⟨⟨?_, ?_, ?_, ?_, e7, ?_⟩, ?_, ?_⟩
+  · show 0 < g.ndim; omega
+  · show g.region.pmax.length = g.ndim; omega
+  · rw [e3, length_removeAt _ _ (by rw [inv_dims_length hm]; exact ha), inv_dims_length hm]
+    show m.ndim - 1 = g.ndim; omega
+  · rw [e4, length_removeAt _ _ (by rw [inv_units_length hm]; exact ha), inv_units_length hm]
+    show m.ndim - 1 = g.ndim; omega
+  · intro b hb
+    have hb' : b < g.ndim := hb
+    obtain ⟨h1, h2, _, _⟩ := hax b hb'
+    rw [h1, h2]
+    exact inv_lo_lt_hi hm (skip_lt a b m.ndim ha (by omega))
+  · show g.n.length = g.ndim; omega
+  · intro b hb
+    rw [(hax b hb).2.2.1]
+    exact inv_n_pos hm (skip_lt a b m.ndim ha (by omega))
+
+/-- `Field.sel` with a coordinate `x`: for every cell `j` of the result, the point with the
+result cell's centre on the kept axes and `x` on the removed axis lies in the source region,
+in the source cell `insertAt j a k` (`k` = index of the layer containing `x`), and the result
+holds exactly that cell's value and validity. -/
+theorem sel_plane_pointwise (f : Fld) (hf : f.mesh.Inv) (dim : String) (x : Rat) (g : Fld)
+    (h : selFld f dim (.point x) = .ok (.field g)) :
+    ∃ a, f.mesh.region.dim2index dim = .ok a ∧
+      f.mesh.region.lo a ≤ x ∧ x ≤ f.mesh.region.hi a ∧
+      ∀ j, inRange g.mesh.n j = true →
+        f.mesh.point2index (insertAt (g.mesh.centre j) a x)
+          = .ok (insertAt j a (f.mesh.indexAx a x)) ∧
+        g.data.get j = f.data.get (insertAt j a (f.mesh.indexAx a x)) ∧
+        g.valid.get j = f.valid.get (insertAt j a (f.mesh.indexAx a x)) := by
+  unfold selFld at h
+  split at h
+  · cases h
+  · rename_i ai hconv
+    obtain ⟨a, s⟩ := ai
+    obtain ⟨hd, hx1, hx2, hs⟩ := selConvert_point_inv f.mesh hf dim x a s hconv
+    subst hs
+    have ha := dim2index_ndim hf hd
+    split at h
+    · simp only at h
+      split at h
+      · cases h
+      · cases h
+    · rename_i m' hm'
+      simp only at h
+      split at h
+      · cases h
+      · rename_i g' hg'
+        injection h with h
+        injection h with h
+        subst h
+        obtain ⟨q1, q2, q3, _⟩ := mkFld_inv _ _ _ _ _ hg'
+        have hp := selMesh_plane_inv f.mesh hf dim _ a _ _ hconv m' hm'
+        obtain ⟨e1, e2, _, _, _, _, _, _, e9⟩ := selPlaneMesh_inv f.mesh hf a ha _ m' hp
+        refine ⟨a, hd, hx1, hx2, ?_⟩
+        intro j hj
+        rw [q1] at hj ⊢
+        refine ⟨plane_point2index f.mesh m' hf a ha x hx1 hx2 e1 e2 e9 j hj, ?_, ?_⟩
+        · rw [q2]; rfl
+        · rw [q3]; rfl
+
+/-- The same for the central plane (no coordinate given): the inserted coordinate is the
+region's centre along the removed axis. -/
+theorem sel_centre_pointwise (f : Fld) (hf : f.mesh.Inv) (dim : String) (g : Fld)
+    (h : selFld f dim .centre = .ok (.field g)) :
+    ∃ a, f.mesh.region.dim2index dim = .ok a ∧
+      ∀ j, inRange g.mesh.n j = true →
+        f.mesh.point2index (insertAt (g.mesh.centre j) a ((f.mesh.region.lo a + f.mesh.region.hi a) / 2))
+          = .ok (insertAt j a (f.mesh.indexAx a ((f.mesh.region.lo a + f.mesh.region.hi a) / 2))) ∧
+        g.data.get j = f.data.get (insertAt j a (f.mesh.indexAx a ((f.mesh.region.lo a + f.mesh.region.hi a) / 2))) ∧
+        g.valid.get j = f.valid.get (insertAt j a (f.mesh.indexAx a ((f.mesh.region.lo a + f.mesh.region.hi a) / 2))) := by
+  unfold selFld at h
+  split at h
+  · cases h
+  · rename_i ai hconv
+    obtain ⟨a, s⟩ := ai
+    obtain ⟨hd, hs⟩ := selConvert_centre_inv f.mesh hf dim a s hconv
+    subst hs
+    have ha := dim2index_ndim hf hd
+    have hlt := inv_lo_lt_hi hf ha
+    split at h
+    · simp only at h
+      split at h
+      · cases h
+      · cases h
+    · rename_i m' hm'
+      simp only at h
+      split at h
+      · cases h
+      · rename_i g' hg'
+        injection h with h
+        injection h with h
+        subst h
+        obtain ⟨q1, q2, q3, _⟩ := mkFld_inv _ _ _ _ _ hg'
+        have hp := selMesh_plane_inv f.mesh hf dim _ a _ _ hconv m' hm'
+        obtain ⟨e1, e2, _, _, _, _, _, _, e9⟩ := selPlaneMesh_inv f.mesh hf a ha _ m' hp
+        refine ⟨a, hd, ?_⟩
+        intro j hj
+        rw [q1] at hj ⊢
+        refine ⟨plane_point2index f.mesh m' hf a ha _ (by linarith) (by linarith) e1 e2 e9 j hj, ?_, ?_⟩
+        · rw [q2]; rfl
+        · rw [q3]; rfl
+
+/-! ## Range selection -/
+
+/-- `Mesh.sel` with a range: along the chosen axis exactly the cells from the one containing
+the lower bound (`k₁`) to the one containing the upper bound (`k₂`) are kept — the new corners
+are faces of the source mesh, `n = k₂ - k₁ + 1`, the cell size is unchanged; every other axis,
+names, units and tolerance are kept; the result is a well-formed mesh. -/
+theorem sel_range_shape (m : Mesh) (hm : m.Inv) (dim : String) (x y : Rat) (g : Mesh)
+    (h : selMesh m dim (.range x y) = .ok g) :
+    ∃ a, m.region.dim2index dim = .ok a ∧ m.region.lo a ≤ min x y ∧ max x y ≤ m.region.hi a ∧
+      g.ndim = m.ndim ∧ g.region.dims = m.region.dims ∧ g.region.units = m.region.units ∧
+      g.region.tol = m.region.tol ∧
+      g.region.lo a = m.region.lo a + (m.indexAx a (min x y) : Rat) * m.cellAt a ∧
+      g.region.hi a = m.region.lo a + ((m.indexAx a (max x y) : Rat) + 1) * m.cellAt a ∧
+      g.nAt a = m.indexAx a (max x y) - m.indexAx a (min x y) + 1 ∧ g.cellAt a = m.cellAt a ∧
+      (∀ b, b < m.ndim → b ≠ a →
+        g.region.lo b = m.region.lo b ∧ g.region.hi b = m.region.hi b ∧ g.nAt b = m.nAt b ∧
+        g.cellAt b = m.cellAt b) ∧
+      g.Inv := by
+  unfold selMesh at h
+  split at h
+  · cases h
+  · rename_i ai hconv
+    obtain ⟨a, s⟩ := ai
+    obtain ⟨hd, h1, h2, hs⟩ := selConvert_range_inv m hm dim x y a s hconv
+    subst hs
+    have ha := dim2index_ndim hm hd
+    have hmm : min x y ≤ max x y := le_trans (min_le_left x y) (le_max_left x y)
+    have hk := indexAx_mono m a _ _ (inv_cell_pos hm ha) hmm
+    have hk2 := indexAx_lt m a (max x y) (inv_n_pos hm ha)
+    obtain ⟨e1, e2, e3, e4, e5, e6, e7, e8⟩ := selRangeMesh_inv m hm a ha _ _ hk hk2 g h
+    have hhi := block_hi e7 (by omega)
+    have hcast : ((m.indexAx a (max x y) - m.indexAx a (min x y) + 1 : Nat) : Rat)
+        = (m.indexAx a (max x y) : Rat) - (m.indexAx a (min x y) : Rat) + 1 := by
+      push_cast [Nat.cast_sub hk]; ring
+    refine ⟨a, hd, h1, h2, e1, e3, e4, e5, e7.lo, by rw [hhi, hcast]; ring, e7.n, e7.cell, ?_, ?_⟩
+    · intro b hb hba
+      have blk := e8 b hb hba
+      have hh := block_hi blk (inv_n_pos hm hb)
+      refine ⟨by rw [blk.lo]; simp, ?_, blk.n, blk.cell⟩
+      rw [hh, hi_eq m b (inv_n_pos hm hb)]; simp
+    · have hpos : ∀ b, b < g.ndim → 0 < g.nAt b ∧ g.region.lo b < g.region.hi b := by
+        intro b hb
+        by_cases hba : b = a
+        · subst hba
+          have hc := inv_cell_pos hm ha
+          refine ⟨by rw [e7.n]; omega, ?_⟩
+          rw [hhi, e7.lo, hcast]
+          have : (m.indexAx b (min x y) : Rat) ≤ (m.indexAx b (max x y) : Rat) := by exact_mod_cast hk
+          nlinarith
+        · have blk := e8 b (by omega) hba
+          have hh := block_hi blk (inv_n_pos hm (by omega))
+          have hc := inv_cell_pos hm (show b < m.ndim by omega)
+          refine ⟨by rw [blk.n]; exact inv_n_pos hm (by omega), ?_⟩
+          rw [hh, blk.lo]
+          have : (0 : Rat) < (m.nAt b : Rat) := by exact_mod_cast inv_n_pos hm (show b < m.ndim by omega)
+          nlinarith
+      refine ⟨⟨?_, ?_, ?_, ?_, ?_, fun b hb => (hpos b hb).2⟩, ?_, fun b hb => (hpos b hb).1⟩
+      · show 0 < g.ndim; rw [e1]; exact inv_ndim_pos hm
+      · show g.region.pmax.length = g.ndim; omega
+      · rw [e3, inv_dims_length hm]; exact e1.symm
+      · rw [e4, inv_units_length hm]; exact e1.symm
+      · rw [e3]; exact hm.1.2.2.2.2.1
+      · show g.n.length = g.ndim; omega
+
+/-- `Field.sel` with a range: the centre of every result cell `j` lies in the source region, in
+the source cell obtained by shifting `j` by `k₁` along the chosen axis, and the result holds
+exactly that cell's value and validity. -/
+theorem sel_range_pointwise (f : Fld) (hf : f.mesh.Inv) (dim : String) (x y : Rat) (g : Fld)
+    (h : selFld f dim (.range x y) = .ok (.field g)) :
+    ∃ a, f.mesh.region.dim2index dim = .ok a ∧
+      ∀ j, inRange g.mesh.n j = true →
+        f.mesh.point2index (g.mesh.centre j)
+          = .ok (setAt j a (j.getD a 0 + f.mesh.indexAx a (min x y))) ∧
+        g.data.get j = f.data.get (setAt j a (j.getD a 0 + f.mesh.indexAx a (min x y))) ∧
+        g.valid.get j = f.valid.get (setAt j a (j.getD a 0 + f.mesh.indexAx a (min x y))) := by
+  unfold selFld at h
+  split at h
+  · cases h
+  · rename_i ai hconv
+    obtain ⟨a, s⟩ := ai
+    obtain ⟨hd, h1, h2, hs⟩ := selConvert_range_inv f.mesh hf dim x y a s hconv
+    subst hs
+    have ha := dim2index_ndim hf hd
+    split at h
+    · simp only at h
+      cases h
+    · rename_i m' hm'
+      simp only at h
+      split at h
+      · cases h
+      · rename_i g' hg'
+        injection h with h
+        injection h with h
+        subst h
+        obtain ⟨q1, q2, q3, _⟩ := mkFld_inv _ _ _ _ _ hg'
+        have hmm : min x y ≤ max x y := le_trans (min_le_left x y) (le_max_left x y)
+        have hk := indexAx_mono f.mesh a _ _ (inv_cell_pos hf ha) hmm
+        have hk2 := indexAx_lt f.mesh a (max x y) (inv_n_pos hf ha)
+        have hr := selMesh_range_inv f.mesh dim _ a _ _ _ _ hconv m' hm'
+        obtain ⟨e1, e2, _, _, _, _, e7, e8⟩ := selRangeMesh_inv f.mesh hf a ha _ _ hk hk2 m' hr
+        refine ⟨a, hd, ?_⟩
+        intro j hj
+        rw [q1] at hj ⊢
+        have hjl : j.length = f.mesh.ndim := by rw [inRange_length _ _ hj, e2]
+        have hp := block_point2index f.mesh m' hf e1 e2
+          (fun b => if b = a then f.mesh.indexAx a (min x y) else 0)
+          (fun b => if b = a then f.mesh.indexAx a (max x y) - f.mesh.indexAx a (min x y) + 1 else f.mesh.nAt b)
+          (by
+            intro b hb
+            by_cases hba : b = a
+            · subst hba; simpa using e7
+            · simpa [hba] using e8 b hb hba) j hj
+        have hidx : (tab f.mesh.ndim fun b => (if b = a then f.mesh.indexAx a (min x y) else 0) + j.getD b 0)
+            = setAt j a (j.getD a 0 + f.mesh.indexAx a (min x y)) := by
+          symm
+          apply eq_tab_of_getD _ _ _ 0 (by rw [length_setAt, hjl])
+          intro b hb
+          by_cases hba : b = a
+          · subst hba
+            rw [getD_setAt_eq _ _ _ _ (by omega)]; simp; omega
+          · rw [getD_setAt_ne _ _ _ _ _ hba]; simp [hba]
+        rw [hidx] at hp
+        refine ⟨hp, ?_, ?_⟩
+        · rw [q2]; rfl
+        · rw [q3]; rfl
+
 end DFV.C07
